@@ -637,13 +637,54 @@ def execute(case):
     return {"ev": ev, "init": init}
 
 
+def _dump_findings(cases, traces):
+    """X10_DUMP=1: beyond-list findings get no replay file from the generic driver, so validate the recorded traces once
+    more here and write the first failing trace of each finding signature to out/x10/findings/<hash>.json
+    (`bin/check X10 --replay <file>` re-executes its case)."""
+    import hashlib
+    d = os.path.join(tlc.OUT, "x10", "findings")
+    os.makedirs(d, exist_ok=True)
+    for f in os.listdir(d):
+        os.remove(os.path.join(d, f))
+    first, hits = {}, {}
+    shard = 400
+    for lo in range(0, len(traces), shard):
+        part = traces[lo:lo + shard]
+        path = os.path.join(tlc.OUT, "x10", "dump_shard.ndjson")
+        with open(path, "w") as f:
+            for tr in part:
+                f.write(json.dumps(tr, separators=(",", ":")) + "\n")
+        rej, _ = tlc.validate(TRACE[0], TRACE[1], path, "x10_dump", sum(len(t["ev"]) for t in part), len(part))
+        for (t1, pos, clause) in rej:
+            ti = lo + t1 - 1
+            sig = "%s|%s" % (clause, traces[ti]["ev"][pos - 1].get("sig", "?"))
+            hits[sig] = hits.get(sig, 0) + 1
+            if sig not in first or len(traces[ti]["ev"]) < len(traces[first[sig][0]]["ev"]):
+                first[sig] = (ti, pos, clause)
+        os.remove(path)
+    out = []
+    for sig, (ti, pos, clause) in sorted(first.items()):
+        path = os.path.join(d, hashlib.sha1(sig.encode()).hexdigest()[:12] + ".json")
+        ev = traces[ti]["ev"]
+        with open(path, "w") as f:
+            json.dump({"property": PROPERTY, "signature": sig, "clause": clause, "position": pos, "hits": hits[sig],
+                       "case": cases[ti], "ops": [[e["op"], e["a"], e["s"], e["exc"]] for e in ev[:pos]],
+                       "pre": traces[ti]["init"] if pos == 1 else ev[pos - 2]["post"], "event": ev[pos - 1],
+                       "replay_cmd": "bin/check X10 --replay %s" % path}, f, indent=1)
+        out.append({"signature": sig, "hits": hits[sig], "file": path})
+    return out
+
+
 def summarize(cases, traces):
     by, long_ = {}, 0
     for tr in traces:
         long_ += 1 if len(tr["ev"]) >= 10 else 0
         for e in tr["ev"]:
             by[e["op"]] = by.get(e["op"], 0) + 1
-    return {"events_by_op": by, "traces_with_10_or_more_validated_steps": long_}
+    r = {"events_by_op": by, "traces_with_10_or_more_validated_steps": long_}
+    if os.environ.get("X10_DUMP") == "1":
+        r["finding_dumps"] = _dump_findings(cases, traces)
+    return r
 
 
 def corrupt(trace, rng):
